@@ -237,6 +237,8 @@ fn spawn_executor() -> Executor {
 
 /// number of program panics seen by this process (each retires one executor thread)
 pub static PANICS: std::sync::atomic::AtomicU64 = std::sync::atomic::AtomicU64::new(0);
+/// retired executor threads a process may accumulate (about four memory mappings each: stack, guard, signal stack, its guard; vm.max_map_count is 65530)
+pub const PANIC_BUDGET: u64 = 10_000;
 
 fn run_entrypoint(ptr: *mut u8, clock: &Clock, program_id: Pubkey, account_keys: Vec<Pubkey>) -> Reply {
     EXECUTOR.with(|e| {
@@ -247,9 +249,13 @@ fn run_entrypoint(ptr: *mut u8, clock: &Clock, program_id: Pubkey, account_keys:
         let ex = e.as_ref().unwrap();
         ex.job_tx.send(Job { ptr: ptr as usize, clock: clock.clone(), program_id, account_keys }).expect("executor alive");
         let reply = ex.reply_rx.recv().expect("executor reply");
-        if matches!(reply, Reply::Panicked(_)) {
+        if let Reply::Panicked(m) = &reply {
             // that executor thread is parked forever inside the panic hook; start a fresh one next time
-            PANICS.fetch_add(1, std::sync::atomic::Ordering::Relaxed);
+            let n = PANICS.fetch_add(1, std::sync::atomic::Ordering::Relaxed);
+            // development aid: VERIF_DEBUG_PANICS=1 prints the first program panics of the process
+            if n < 40 && std::env::var("VERIF_DEBUG_PANICS").is_ok() {
+                eprintln!("program panic #{n}: {m}");
+            }
             *e = None;
         }
         reply
